@@ -29,7 +29,7 @@ def bounds(tier):
 def cases(tier):
     cs = []
     for a in WEIGHTED:
-        for m in ((1, 2, 3) if tier == "thorough" else (1, 2)):
+        for m in ((1, 2, 3) if (tier == "thorough" or a in ("imtlg", "mean", "sum", "constant", "random", "pcgrad")) else (1, 2)):
             if a == "krum" and m < 3:
                 continue
             if a in ("cagrad", "alignedmtl") and m == 3:
@@ -120,6 +120,13 @@ def domain(sp, agg, m, name="g", n=None):
     if agg == "krum":
         d = _free_dist(m)
         return torch.GramOnly(None, n or m, dist=d), None, d
+    if agg == "imtlg" and m >= 3:
+        # m = 3: the spectral closed form of pinv exceeds the solver; pinv is an ARBITRARY kernel here (fresh unconstrained symmetric-free matrix),
+        # which is stronger for totality / Gram-only claims: they hold whatever the kernel returns
+        G = free_gram(m, name)
+        X = [[fresh(f"X{i}{j}") for j in range(m)] for i in range(m)]
+        torch.KERNELS["pinv"] = lambda A: T(X, A.dtype)
+        return gram_only(G, n), G, None
     if agg in SPECTRAL:
         G, hint, sig = spectral_gram(m, name)
         torch.KERNELS["eigbasis"] = hint
